@@ -4,11 +4,11 @@
    ingredients observed in the traced environments) and the 2^6 x {known
    medium, "other"} emodulus combinations. *)
 From Coq Require Import ZArith List Bool.
-From Verif Require Import Model.C06 Gen.AncRegistry.
+From Verif Require Import Model.C06 Proofs.C06 Gen.AncRegistry.
 Import ListNotations.
 Open Scope Z_scope.
 
-Definition uses_declared (r : recipe) : bool := forallb (covered r) (r_uses r).
+Definition uses_declared := uses_covered.
 
 (* every recipe outside the known findings reads only what its hash covers *)
 Lemma registry_complete_partial :
@@ -114,3 +114,53 @@ Proof.
          [Read 108; SetCfg 15 2], 108.
   vm_compute. do 2 eexists. repeat split; try reflexivity. discriminate.
 Qed.
+
+(* ---- the generic coherence theorem instantiated with the table ---- *)
+Lemma registry_read_coherent : forall b ops f,
+  let st := run_state registry (fresh b) ops in
+  select AF registry st f = select AF registry (clear st) f ->
+  (forall r, select AF registry st f = Some r ->
+     forallb (in_base (s_base st)) (r_feats r) = true
+     /\ known_incomplete r = false /\ r_mkind r = 0) ->
+  snd (read RF registry st f) = snd (read RF registry (clear st) f).
+Proof.
+  intros b ops f st Hsel Hg.
+  apply history_read_coherent; auto using registry_collide_ok.
+  intros r Hr. destruct (Hg r Hr) as [Hflat [Hk Hm]].
+  destruct (select_some _ _ _ _ _ Hr) as [Hin _].
+  split; [exact Hflat|]. split; [now apply registry_complete_partial|].
+  split; [exact Hm|].
+  assert (H : forallb (fun r => known_incomplete r
+                || (negb (r_rf r =? 2) && match r_extra r with [] => true
+                                          | _ => false end)) registry = true)
+    by (vm_compute; reflexivity).
+  rewrite forallb_forall in H. specialize (H r Hin). rewrite Hk in H.
+  cbn [orb] in H. apply andb_prop in H. destruct H as [H1 H2].
+  split; [now apply negb_true_iff in H1|].
+  destruct (r_extra r); [reflexivity|discriminate H2].
+Qed.
+
+(* non-vacuity: a history that changes the frame rate between two reads of
+   "time" meets every hypothesis, and the read is not a trivial one *)
+Example registry_read_coherent_example :
+  let b := mkBase [(f_frame, 0)] [] [(k_frame_rate, 1)] in
+  let ops := [Read f_time; SetCfg k_frame_rate 2] in
+  let st := run_state registry (fresh b) ops in
+  select AF registry st f_time = select AF registry (clear st) f_time
+  /\ (forall r, select AF registry st f_time = Some r ->
+       forallb (in_base (s_base st)) (r_feats r) = true
+       /\ known_incomplete r = false /\ r_mkind r = 0)
+  /\ has f_time (s_cache st) = true
+  /\ exists v, snd (read RF registry st f_time) = Ok v.
+Proof.
+  cbv zeta. split; [vm_compute; reflexivity|]. split.
+  - intros r H. vm_compute in H. inversion H. subst r. vm_compute.
+    repeat split; reflexivity.
+  - split; [vm_compute; reflexivity|]. vm_compute. eexists. reflexivity.
+Qed.
+
+(* non-vacuity of the emodulus table: scenario C really is selected *)
+Example emodulus_precedence_example :
+  sel_scenario registry (emod_base true true true false true true 1) = 3
+  /\ taken true true true false true true 1 = 3.
+Proof. vm_compute. split; reflexivity. Qed.
